@@ -208,13 +208,9 @@ fn transform(
         } else {
             ctx.apply(op, Inv, operands)?
         };
-        if m != n {
-            return Err(Error::General(
-                "Roundtrip - mismatch between number of Fwd and Inv results",
-            ));
-        }
-
-        for index in 0..n {
+        // The roundtrip deviation is reported for every tuple - not just for as many
+        // as were successfully transformed (a failed tuple comes out as NaN)
+        for index in 0..operands.len() {
             operands[index] = operands[index] - buffer[index];
         }
 
